@@ -670,13 +670,18 @@ def plan(checker, tier, seed):
         if sh[0] * sh[1] <= 6:
             ex_jobs.append(enum_job(checker, "gen_dfs", sh, {"randomized_stack": True}, split=sh[0] * sh[1] == 6))
     # --- gen_prim: finite, every execution
-    prim_shapes = tiny + mid + ([(2, 4), (4, 2)] if thorough else [])
+    prim_shapes = tiny + mid
     for sh in prim_shapes:
         for kw in dfs_kwargs_small(*sh):
             ex_jobs.append(enum_job(checker, "gen_prim", sh, kw, split=sh[0] * sh[1] >= 6))
+    prim8 = [(2, 4), (4, 2)] if thorough else []  # 8 cells: 170 thousand executions with default arguments
+    for sh in prim8:
+        last = (sh[0] - 1, sh[1] - 1)
+        for kw in ({}, {"start_coord": last}, {"do_forks": False}, {"accessible_cells": 0.5}, {"max_tree_depth": 4}, {"accessible_cells": 3, "start_coord": last}):
+            ex_jobs.append(enum_job(checker, "gen_prim", sh, kw, split=True, want=300))
     # 3x3: with default arguments 33.0 million executions (1.13 M from a corner start, 6.06 M from an edge start, 19.7 M from the centre)
     prim33 = [{"do_forks": False}, {"accessible_cells": 4}, {"accessible_cells": 5}, {"accessible_cells": 0.5}, {"max_tree_depth": 0.5}]
-    prim33_budget = 14
+    prim33_budget = 13
     if thorough:
         prim33 += [{"max_tree_depth": 4}, {"start_coord": (0, 0)}, {"start_coord": (2, 2)}]
     for kw in prim33:
@@ -715,6 +720,7 @@ def plan(checker, tier, seed):
         "EVERY random execution (depth-first walk over all decision scripts of the scripted random source; each draw records its number of alternatives) of: "
         f"gen_dfs on {_fmt(dfs_shapes)} x {len(dfs_kwargs_small(3, 3))} keyword settings (accessible_cells int/float, max_tree_depth int/float, do_forks, start_coord, shape as tuple/ndarray; randomized_stack=True up to 6 cells); "
         f"gen_prim on {_fmt(prim_shapes)} x the same settings"
+        + (f", on {_fmt(prim8)} x 6 settings (default, start at the last cell, do_forks=False, accessible_cells=0.5, max_tree_depth=4, accessible_cells=3 from the last cell)" if prim8 else "")
         + f", and every execution on 3x3 for the settings {prim33}"
         + (f"; 3x3 with default arguments (33.0 million executions) cut after {prim33_budget} draws with >1 alternative" if thorough else "; 3x3 with default arguments (33.0 million executions) only seeded in this tier")
         + "; gen_wilson (infinite tree) cut after N draws with >1 alternative, N = "
